@@ -29,6 +29,9 @@ fn segs() -> Vec<Seg> {
         Seg::I(3),
         Seg::I(-1),
         Seg::I(-2),
+        // far enough before the start of the seed arrays that null padding is needed in between
+        Seg::I(-3),
+        Seg::I(-5),
     ]
 }
 
@@ -215,6 +218,33 @@ pub fn step(pre: &Value, a: &Action, prefix: PathPrefix, acc: &mut Acc) -> Optio
                         af.map_or("absent".into(), vv::show),
                     ));
                     break;
+                }
+            }
+            // L2 for an insertion at a negative index before the start of an existing array: the array is
+            // extended at the FRONT, so every old element keeps its place counted from the end — the
+            // locations `[-1] … [-len]` neither contain nor are contained in the path and stay unchanged.
+            {
+                let (c, n) = tree::resolve(pre, p);
+                if n < p.len() {
+                    if let (Some(Value::Array(old)), Seg::I(i)) = (tree::get(pre, &c), &p[n]) {
+                        if *i < 0 && (i.unsigned_abs() as usize) > old.len() {
+                            for k in 1..=old.len() as i64 {
+                                let mut q = c.clone();
+                                q.push(Seg::I(-k));
+                                let (b, af) = (tree::get(pre, &q), tree::get(&post, &q));
+                                if b != af {
+                                    acc.violations.push(Violation::new(
+                                        "C18.L2-frame-from-the-end",
+                                        w(),
+                                        format!("{} unchanged: {}", tree::show_path(&q), b.map_or("absent".into(), vv::show)),
+                                        af.map_or("absent".into(), vv::show),
+                                    ));
+                                    break;
+                                }
+                            }
+                            acc.classes.insert("insert:front-extension".into());
+                        }
+                    }
                 }
             }
             acc.classes.insert(format!("insert:len{}:frame{}:{}", p.len(), compared.min(3), if tree::resolve(pre, p).1 == p.len() { "existing" } else { "creating" }));
